@@ -167,6 +167,15 @@ CHECKS = {
         note='Values are sampled per class (TLC does no arithmetic); identity is the interpreter\'s verdict; resource-heavy shifts/powers excluded.',
         technique='TLA+ (TLC) check of folding decisions per operator/operand-class cell + replay of every cell into the real folder',
         design_ref='3.6, 5 (C07)'),
+    'C17': dict(
+        specs='CostS.tla, Cost.tla, Trace_Size.tla',
+        text='M = the arithmetic of should_rename (name / builtin / hoisted bindings); S = the true change of printed size including the separator of an inserted '
+             'assignment. TLC shows the model exact at module level / one-line bodies and reproduces the indentation under-estimate (D15) for every decision in '
+             'bounds. On pinned real modules TLC judges every logged should_rename decision against the cost comparison, and for each of 11 size options and 2 '
+             'bases that the output with the option on is no longer than with it off.',
+        note='The property is a corpus observation ("real-world modules" = the pinned corpus); decisions are logged by wrapping should_rename from outside.',
+        technique='TLA+ (TLC) check of the cost model + trace validation of logged rename decisions and measured output sizes',
+        design_ref='3.2, 5 (C17)'),
     'C08': dict(
         specs='Pipeline.tla, PipelineS.tla, Trace_Pipeline.tla',
         text='TLC exhaustively checks the implementation-shaped pipeline model against the envelope (all 2^14 gating option sets x taint x '
